@@ -318,9 +318,9 @@ func init() {
 			}
 			return mkError(fr, msg), true
 		},
-		"fmt.Printf":   printNop,
-		"fmt.Println":  printNop,
-		"fmt.Print":    printNop,
+		"fmt.Printf":  printNop,
+		"fmt.Println": printNop,
+		"fmt.Print":   printNop,
 		"fmt.Fprintf": func(fr *frame, args []value) (value, bool) {
 			return fprint(fr, args[0], fmt.Sprintf(concreteString(args[1]), nativeArgs(fr, args[2])...)), true
 		},
